@@ -235,6 +235,10 @@ class _Spread(Contract):
                         "outcome = c16_replay.run(call['mode'], call['defp'], call['period'], call['amount'], call['known'])\n",
                         "mode": mode, "defp": defp, "period": period, "amount": [120.0, 7.0],
                         "known": {str(k): [5.0, 1.0] for k in ks}})
+        if mode == "divide":
+            # every piece already given, and an amount that contradicts them for each entity while the differences cancel over the
+            # population: to be refused like any other contradiction
+            out.append(dict(out[-1], amount=[5.0 * n + 3.0, 1.0 * n - 3.0], known={str(k): [5.0, 1.0] for k in range(n)}))
         return out
 
     def judge_native(self, I, case, call, nat):
